@@ -17,7 +17,7 @@ for k in ("clean", "mut", "tests"):
     if os.path.exists(p):
         conf[k] = open(p).read()[-600:]
 meta["confirmed_by_me"] = {
-    "what_i_ran": [f"tools/confirm_seed.sh {pid} {mut}  (scratch worktree /tmp/wt/{pid}: demo on clean tree, git apply patch.diff, "
+    "what_i_ran": [f"tools/confirm_seed.sh {pid} {mut}  (scratch worktree /tmp/wt<round>/{pid}: demo on clean tree, git apply patch.diff, "
                    "pytest (46 tests), demo with patch, checkout)",
                    f"tools/run_seed.sh <check id> seeded/{pid}-{mut}  (git -C /repo apply; ./check; git -C /repo checkout -- .)"],
     "demo_on_clean_tree_tail": conf.get("clean", ""), "demo_with_patch_tail": conf.get("mut", ""),
